@@ -161,6 +161,14 @@ def step (st : St) : List String → Option (St × String)
       match execFilter st.env.scheme st.ctx e with
       | .ok b => boolStr b
       | .error s => stuckStr s)
+  | ["execrt", h] => do
+    -- execution on a context that went through a serialization round trip: by C14
+    -- (`serde_roundtrip`) that context equals the original one
+    let txt ← hexText h
+    pure (st, withAst st txt fun e =>
+      match execFilter st.env.scheme st.ctx e with
+      | .ok b => boolStr b
+      | .error s => stuckStr s)
   | ["value", h] => do
     let txt ← hexText h
     pure (st, match parseValue st.env txt with
